@@ -31,11 +31,21 @@ def user_exception(tag):
     e = cls(tag)
     del _RAISED[:-20]
     _RAISED.append(e)
+    _RAISED_ARGS[id(e)] = (e, e.args, str(e))
+    for k in list(_RAISED_ARGS)[:-40]:
+        del _RAISED_ARGS[k]
     return e
 
 
+_RAISED_ARGS = {}
+
+
 def is_user_exception(e):
-    return any(e is x for x in _RAISED)
+    """the object that was raised - and still saying what it said"""
+    if not any(e is x for x in _RAISED):
+        return False
+    rec = _RAISED_ARGS.get(id(e))
+    return rec is None or (rec[0] is e and e.args == rec[1] and str(e) == rec[2])
 
 
 class Ctx:
@@ -78,7 +88,9 @@ def build_term(yp, t, vars_):
     if k == 'a':
         if t[1].startswith('$py:'):
             # a Python value used as a constant (None, a str): in the model an atom with a reserved spelling
-            return {'$py:None': None, "$py:'txt'": 'txt'}[t[1]]
+            # (a new, equal object every time: equal constants unify whether or not they are the same object)
+            return {'$py:None': lambda: None, "$py:'txt'": lambda: ''.join(['t', 'xt']),
+                    '$py:Fraction(1, 2)': lambda: __import__('fractions').Fraction(1, 2), "$py:b'x'": lambda: bytes([120])}[t[1]]()
         return yp.atom(t[1])
     if k == 'i':
         return int(t[1])
@@ -167,7 +179,7 @@ def exn_name(e):
 
 
 # ---------------------------------------------------------------- python predicates
-def make_pypred(yp, rows, raise_at, yield_val=False, nparams=None, star=False):
+def make_pypred(yp, rows, raise_at, yield_val=False, nparams=None, star=False, default_last=False):
     """A generator function that behaves like the facts `rows` (each row: (nvars, [terms]))."""
     def impl(*args):
         for i, (nv, terms) in enumerate(rows):
@@ -189,6 +201,9 @@ def make_pypred(yp, rows, raise_at, yield_val=False, nparams=None, star=False):
             raise user_exception('end of %d' % len(rows))
     if nparams is None:
         return impl
+    if default_last and nparams >= 1:
+        names = ['a%d' % i for i in range(nparams)]
+        return eval('lambda %s: impl(%s)' % (','.join(names[:-1] + [names[-1] + '=None']), ','.join(names)), {'impl': impl})
     if star and nparams >= 1:
         names = ','.join(['a%d' % i for i in range(nparams - 1)] + ['*rest'])
         return eval('lambda %s: impl(%s)' % (names, names), {'impl': impl})
@@ -258,6 +273,10 @@ class RealEngine:
             self.yp.register_function(name, f, arity=-1)
         elif style == 'inferred':
             f = make_pypred(self.yp, rows, raise_at, yield_val, nparams=arity)
+            self.yp.register_function(name, f)
+        elif style == 'inferred-default':
+            # `def f(a1, .., an=None)`: a parameter with a default value is a parameter
+            f = make_pypred(self.yp, rows, raise_at, yield_val, nparams=arity, default_last=True)
             self.yp.register_function(name, f)
         elif style == 'inferred-star':
             # `def f(a1, .., *rest)`: the arity is the number of parameters, the starred one included
@@ -407,6 +426,9 @@ class RealEngine:
                 nested[3].append((inner, lims))
             if raise_at is not None and calls[0] >= raise_at:
                 raise user_exception('projection %d' % calls[0])
+            v = E.get_value(args[0]) if args else None
+            if isinstance(v, int) and not isinstance(v, bool) and v > 50:
+                _countdown(v)      # a projection that needs stack of its own, in proportion to the answer
             return canon_terms(args)
         before = sys.getrecursionlimit()
         q = self.yp.query(name, args)
@@ -421,6 +443,10 @@ class RealEngine:
         del q
         gc.collect()
         return [Sym('q'), answers, ending, b1], (before, after)
+
+
+def _countdown(n):
+    return 0 if n <= 0 else 1 + _countdown(n - 1)
 
 
 def run_op(eng, op):
